@@ -203,6 +203,30 @@ pub struct SweepStats {
     pub bads: Vec<SweepBad>,
     pub nbad: u64,
     pub panics: u64,
+    /// transitions after which only state outside the three stages differed (hidden fields)
+    pub hidden_diffs: u64,
+    /// of those, how many were decided by a behavioural probe (the rest exceeded the per-chunk probe budget)
+    pub hidden_probed: u64,
+}
+
+/// One full-alphabet step from both objects: the first operation on which their results or stage states
+/// differ (None = indistinguishable in one step).
+fn probe_diff<S: SetLike>(a: &Keyboard<Echo, S>, b: &Keyboard<Echo, S>, ops: &[KOp]) -> Option<String> {
+    for op in ops {
+        let mut x = a.clone();
+        let mut y = b.clone();
+        let rx = guarded(|| apply_real(&mut x, op), &());
+        let ry = guarded(|| apply_real(&mut y, op), &());
+        if rx != ry {
+            return Some(format!("{} then gives {} instead of {}", op.op().text(), rx.text(), ry.text()));
+        }
+        let (p1, s1, e1) = x.verif_stages();
+        let (p2, s2, e2) = y.verif_stages();
+        if p1 != p2 || s1 != s2 || e1 != e2 {
+            return Some(format!("{} then leaves different stage states", op.op().text()));
+        }
+    }
+    None
 }
 
 /// `oracle_c18` false = C08 mode: only "returned normally" is checked.
@@ -213,7 +237,7 @@ pub fn sweep<S: SetLike>(bound: usize, ops: &[KOp], oracle_c18: bool) -> SweepSt
     let chunk = |evi: usize, guard_all: bool| {
         let m = (evi / 2) as u16;
         let mode = MODES[evi % 2];
-        let mut st = SweepStats { transitions: 0, per_class: [0; 6], states: 0, bads: vec![], nbad: 0, panics: 0 };
+        let mut st = SweepStats { transitions: 0, per_class: [0; 6], states: 0, bads: vec![], nbad: 0, panics: 0, hidden_diffs: 0, hidden_probed: 0 };
         let mut kb_ev = Keyboard::new(S::fresh(), Echo(0), mode);
         let mut cp_ev = Composite { ps2: Ps2Decoder::new(), sc: S::fresh(), ev: EventDecoder::new(Echo(0), mode) };
         let built = catch_unwind(AssertUnwindSafe(|| {
@@ -278,8 +302,16 @@ pub fn sweep<S: SetLike>(bound: usize, ops: &[KOp], oracle_c18: bool) -> SweepSt
                                 } else if *e != c2.ev {
                                     what = Some(("event stage state".to_string(), format!("{:?}", c2.ev), format!("{:?}", e)));
                                 } else if c2 == cp && k2 != kb {
-                                    // reference composite untouched by this operation, yet the real object changed somewhere
-                                    what = Some(("whole Keyboard (operation must be a no-op here)".to_string(), format!("{:?}", kb), format!("{:?}", k2)));
+                                    // The reference composite is untouched by this operation, yet the real object changed
+                                    // somewhere outside its three stages (a hidden field). That alone is not a violation (it
+                                    // may be a statistic); it is one if the change is observable: decide by a behavioural probe.
+                                    st.hidden_diffs += 1;
+                                    if st.hidden_probed < 24 {
+                                        st.hidden_probed += 1;
+                                        if let Some(d) = probe_diff(&k2, &kb, ops) {
+                                            what = Some(("later behaviour (the operation must be a no-op here)".to_string(), "no observable effect".to_string(), d));
+                                        }
+                                    }
                                 }
                             }
                         } else if r1 == KRes::Panic {
@@ -326,12 +358,14 @@ pub fn sweep<S: SetLike>(bound: usize, ops: &[KOp], oracle_c18: bool) -> SweepSt
             Err(_) => chunk(evi, true),
         }
     });
-    let mut tot = SweepStats { transitions: 0, per_class: [0; 6], states: 0, bads: vec![], nbad: 0, panics: 0 };
+    let mut tot = SweepStats { transitions: 0, per_class: [0; 6], states: 0, bads: vec![], nbad: 0, panics: 0, hidden_diffs: 0, hidden_probed: 0 };
     for r in results {
         tot.transitions += r.transitions;
         tot.states += r.states;
         tot.nbad += r.nbad;
         tot.panics += r.panics;
+        tot.hidden_diffs += r.hidden_diffs;
+        tot.hidden_probed += r.hidden_probed;
         for i in 0..6 {
             tot.per_class[i] += r.per_class[i];
         }
@@ -388,7 +422,8 @@ fn report_sweep<S: SetLike>(ctx: &mut Ctx, st: &SweepStats, label: &str, bound: 
     let pc: serde_json::Map<String, serde_json::Value> = (0..6).map(|i| (CLASS_NAMES[i].to_string(), json!(st.per_class[i]))).collect();
     ctx.part(
         label,
-        json!({"engine": "B relation sweep", "deviation_bound": bound, "product_states_visited": st.states, "transitions": st.transitions, "per_operation": pc, "violating_transitions": st.nbad}),
+        json!({"engine": "B relation sweep", "deviation_bound": bound, "product_states_visited": st.states, "transitions": st.transitions, "per_operation": pc, "violating_transitions": st.nbad,
+               "no_op_transitions_changing_only_hidden_state": st.hidden_diffs, "of_which_probed_behaviourally": st.hidden_probed}),
     );
 }
 
